@@ -340,12 +340,21 @@ impl<'a> YamlEmitter<'a> {
         } else {
             self.level += 1;
             for (cnt, (k, v)) in h.iter().enumerate() {
-                let complex_key = matches!(k, Yaml::Mapping(_) | Yaml::Sequence(_));
+                // Implicit keys are limited to 1024 characters: emit long strings as explicit keys.
+                let long_key = matches!(k, Yaml::Value(Scalar::String(s)) if s.len() > 128);
+                let complex_key = matches!(k, Yaml::Mapping(_) | Yaml::Sequence(_)) || long_key;
                 if cnt > 0 {
                     writeln!(self.writer)?;
                     self.write_indent()?;
                 }
-                if complex_key {
+                if long_key {
+                    write!(self.writer, "? ")?;
+                    self.emit_key(k)?;
+                    writeln!(self.writer)?;
+                    self.write_indent()?;
+                    write!(self.writer, ":")?;
+                    self.emit_val(true, v)?;
+                } else if complex_key {
                     write!(self.writer, "?")?;
                     self.emit_val(true, k)?;
                     writeln!(self.writer)?;
